@@ -201,20 +201,31 @@ def check(case):
     kind = case["kind"]
     if kind == "roundtrip":
         t = parse_nested(case["tree"])
-        tree = Tree(case["tree"], format=1)
-        before = tree.write(format=9)
-        leaves, triples = tree_to_triples(tree)
-        if tree.write(format=9) != before:
-            raise Violation("tree_to_triples.input-modified", observed=tree.write(format=9), expected=before)
-        if sorted(leaves) != sorted(leafset(t)):
-            raise Violation("tree_to_triples.leaves", observed=leaves, expected=sorted(leafset(t)))
-        for tr in triples:
-            if not displays(t, tuple(tr)):
-                raise Violation("tree_to_triples.triple-not-displayed", observed=tr, expected=case["tree"])
-        back = tree_from_triples(leaves, triples)
-        if back is None or ete_clades(back) != frozenset(clades_nested(t)):
-            raise Violation("roundtrip.clades", observed=None if back is None else back.write(format=9), expected=case["tree"])
-        return Result(len(leafset(t)) >= 4, ["roundtrip", f"leaves={len(leafset(t))}"], evals=2)
+        # the same tree four ways: plain; with two patterns of branch lengths (data of the tree, not part of its
+        # shape); as a clade of a larger tree (its root has a parent)
+        for variant in ("plain", "lengths-a", "lengths-b", "clade-of-larger-tree"):
+            tree = Tree(case["tree"], format=1)
+            if variant.startswith("lengths"):
+                pattern = (0.5, 3.0, 0.0, 1.0, 12.0) if variant.endswith("a") else (1.0, 1.0, 5.0, 0.25, 9.0, 2.0, 0.0)
+                for k, node in enumerate(tree.traverse()):
+                    node.dist = pattern[k % len(pattern)]
+            if variant == "clade-of-larger-tree":
+                host = Tree("(zz1,zz2);", format=1)
+                host.children[0].add_child(tree)
+                host.children[0].add_child(name="zz3")
+            before = tree.write(format=9)
+            leaves, triples = tree_to_triples(tree)
+            if tree.write(format=9) != before:
+                raise Violation("tree_to_triples.input-modified", observed=tree.write(format=9), expected=before, extra={"variant": variant})
+            if sorted(leaves) != sorted(leafset(t)):
+                raise Violation("tree_to_triples.leaves", observed=leaves, expected=sorted(leafset(t)), extra={"variant": variant})
+            for tr in triples:
+                if not displays(t, tuple(tr)):
+                    raise Violation("tree_to_triples.triple-not-displayed", observed=tr, expected=case["tree"], extra={"variant": variant})
+            back = tree_from_triples(leaves, triples)
+            if back is None or ete_clades(back) != frozenset(clades_nested(t)):
+                raise Violation("roundtrip.clades", observed=None if back is None else back.write(format=9), expected=case["tree"], extra={"variant": variant})
+        return Result(len(leafset(t)) >= 4, ["roundtrip", f"leaves={len(leafset(t))}"], evals=8)
     if kind == "triples":
         leaves = list(case["leaves"])
         triples = [tuple(t) for t in case["triples"]]
@@ -303,6 +314,14 @@ def check(case):
         if len(ds) != len(part):
             raise Violation("disjoint_set.len", observed=len(ds), expected=len(part))
     norm = lambda groups: sorted(sorted(g) for g in groups)  # noqa: E731
+    if len(case["hist"]) % 2 == 0:
+        # the printed form reports the partition too - asked before anything else compresses paths
+        import re
+
+        text = repr(ds)
+        groups = [[int(x) for x in g.split(",") if x.strip()] for g in re.findall(r"\{([0-9, ]*)\}", text[len("DisjointSet("):])]
+        if norm(groups) != norm(part):
+            raise Violation("disjoint_set.repr", observed=text, expected=norm(part))
     if norm(ds.to_list()) != norm(part):
         raise Violation("disjoint_set.to_list", observed=norm(ds.to_list()), expected=norm(part))
     for a in range(n):
